@@ -128,6 +128,8 @@ pub fn gen_plan(prop: &str, seed: u64, index: u64, tier: Tier) -> Plan {
         #[cfg(not(chess_verif_shuttle))]
         "C14CLI" | "C10CLI" => cli::gen_plan(prop, seed, index, tier),
         #[cfg(not(chess_verif_shuttle))]
+        "C19CLI" => cli::gen_plan_stockfish(seed, index, tier),
+        #[cfg(not(chess_verif_shuttle))]
         "C11" => tables::gen_plan(prop, seed, index, tier),
         #[cfg(chess_verif_shuttle)]
         "C09" | "C07" | "C10" => sched::gen_plan(prop, seed, index, tier),
@@ -140,6 +142,8 @@ pub fn gen_plan(prop: &str, seed: u64, index: u64, tier: Tier) -> Plan {
 
 fn exec_raw(plan: &Plan) -> Outcome {
     match plan.property.as_str() {
+        #[cfg(not(chess_verif_shuttle))]
+        _ if plan.scenario == "cli-stockfish-bridge" => cli::exec_stockfish(plan),
         #[cfg(not(chess_verif_shuttle))]
         _ if plan.scenario.starts_with("cli-") => cli::exec(plan),
         #[cfg(not(chess_verif_shuttle))]
@@ -250,6 +254,10 @@ fn main() {
             .expect("rayon pool");
     }
     match cmd {
+        #[cfg(not(chess_verif_shuttle))]
+        "stockfish-stub" => {
+            cli::stockfish_stub();
+        }
         "selftest" => {
             let deep = args.iter().any(|a| a == "--deep");
             match model::self_test(deep) {
